@@ -73,7 +73,7 @@ func init() {
 		Check: check,
 		Floor: func(tier string) int {
 			if tier == "thorough" {
-				return 150000
+				return 100000
 			}
 			return 20000
 		},
@@ -89,8 +89,8 @@ func init() {
 	})
 }
 
-const ruleText = "cases: (1) exhaustive ordered pairs of declaration templates (origin x importance x selector shape x carrier: UA / user / <style> / <link> / @import chain / matching and non-matching @media / nested rule with and without & / style attribute / width attribute / hints sheet) competing for one property of one element, in two arrangements (separate sheets, same sheet); (2) seeded triples of the same templates; (3) random documents of 2-6 elements with 3-10 rules over 8 properties, random selectors over a small alphabet. " +
-	"Every (element, property) of every document is checked against the reference cascade. A case is non-trivial when, for at least one (element, property), two or more valid declarations applied and a winner was decided; distinct = distinct case input."
+const ruleText = "cases: (1) exhaustive ordered pairs of 156 declaration templates (origin x importance x selector shape x carrier: UA sheet / user sheet / <style> / <link> / @import and 2-level @import chain / matching and non-matching @media, media attribute and @import media / late or @media-nested @import / rule with an invalid selector / nested rule with '&', '&.c' and relative selector / style attribute / width,height attribute / hints sheet) competing for one property of one element, in two arrangements (one sheet per template; one sheet per origin), plus every (plain rule, nested-carrier) pair with the second nested inside the first; (2) seeded tuples of 3-4 templates (thorough: also all ordered triples of a reduced set of 21 templates); (3) random documents of 3-11 elements (optional table subtree) with random selectors over a small alphabet (compound/complex/lists, :is, :not, :nth-child, attribute operators, '&'), 8 observed properties plus the margin shorthand, invalid values, spelling variants of !important/@media/@import, pseudo-element rules, repeated imports, presentational attributes on img/table/tr/td/body, replaced UA, forms-UA and hints sheets, print and screen devices, hints and forms on/off; 1 case in 12-16 also runs layout.Layout and checks the style of every box generated for an element. " +
+	"Every (element or ::before/::after, property) of every document is compared with the reference cascade. A case is non-trivial when, for at least one of them, two or more valid declarations applied and a winner had to be decided; distinct = distinct case input. Documents in which a known defect of the unchanged tree (findings/C03) would change a computed value are decided on the model and skipped (pairs, counted as excluded_*) or regenerated (random documents, counted)."
 
 // ---------------------------------------------------------------------------------------------
 
@@ -513,31 +513,42 @@ func countCarriers(doc *Doc, res *fw.Result) {
 	}
 }
 
+// counterFloors: roughly half of what the quick tier observes on the unchanged tree (the thorough
+// tier observes more of everything); a generator that stops producing a carrier kind, a cascade
+// step or a winner class breaks the check instead of passing it.
 func counterFloors(tier string) map[string]int64 {
-	m := map[string]int64{
-		"contests":                     40000,
-		"decided_by_origin-importance": 5000,
-		"decided_by_style-attribute":   300,
-		"decided_by_specificity":       5000,
-		"decided_by_order":             3000,
-		"dead_declarations":            3000,
-		"carrier_import":               1000,
-		"carrier_media":                1000,
-		"carrier_nested_amp":           300,
-		"carrier_nested_relative":      300,
-		"carrier_link":                 500,
-		"carrier_style_attribute":      500,
-		"carrier_hint_attribute":       300,
-		"carrier_hints_sheet":          100,
-		"carrier_ua_sheet":             1000,
-		"carrier_user_sheet":           1000,
-		"box_styles_checked":           1000,
-		"winner_user-agent":            100,
+	return map[string]int64{
+		"contests":                     35000,
+		"decided_by_origin-importance": 20000,
+		"decided_by_style-attribute":   900,
+		"decided_by_specificity":       7000,
+		"decided_by_order":             5000,
+		"dead_declarations":            40000,
+		"carrier_import":               20000,
+		"carrier_media":                18000,
+		"carrier_nested_amp":           12000,
+		"carrier_nested_relative":      8000,
+		"carrier_link":                 5000,
+		"carrier_style_attribute":      9000,
+		"carrier_hint_attribute":       7000,
+		"carrier_hints_sheet":          2000,
+		"carrier_ua_sheet":             7000,
+		"carrier_ua_forms_sheet":       500,
+		"carrier_user_sheet":           10000,
+		"carrier_pseudo_element_rule":  3000,
+		"contests_on_pseudo_elements":  200,
+		"box_styles_checked":           70000,
+		"winner_user-agent":            400,
 		"winner_user":                  500,
-		"winner_author":                5000,
-		"winner_author!important":      2000,
-		"winner_user!important":        1000,
-		"winner_hint_attribute":        50,
+		"winner_author":                9000,
+		"winner_author!important":      15000,
+		"winner_user!important":        2500,
+		"winner_hint_attribute":        200,
+		"winner_style_attribute":       2000,
+		"device_screen":                800,
+		"forms_on":                     350,
+		"kind_pair":                    45000,
+		"kind_triple":                  3000,
+		"kind_random":                  8000,
 	}
-	return m
 }
